@@ -610,7 +610,7 @@ func raceReports(dir string, anchors []string) (total, attributed int, sample st
 				}
 			}
 			// never attribute a race that is purely inside the harness
-			if !strings.Contains(blk, "/repo/") {
+			if !strings.Contains(blk, repoPrefix()) {
 				hit = false
 			}
 			if hit {
@@ -628,17 +628,33 @@ func raceReports(dir string, anchors []string) (total, attributed int, sample st
 	return
 }
 
-// raceSig: the pair of innermost /repo/ frames with line numbers stripped.
+// repoPrefix is the path prefix of the repository under test in stack traces: "/repo/", or the
+// directory the module replace of VERIF_MODFILE points to (calibration runs against a scratch copy).
+func repoPrefix() string {
+	if mf := os.Getenv("VERIF_MODFILE"); mf != "" {
+		if b, err := os.ReadFile(mf); err == nil {
+			for _, l := range strings.Split(string(b), "\n") {
+				if i := strings.Index(l, "go-quai => "); i >= 0 {
+					return strings.TrimRight(strings.TrimSpace(l[i+len("go-quai => "):]), "/") + "/"
+				}
+			}
+		}
+	}
+	return "/repo/"
+}
+
+// raceSig: the pair of innermost repository frames with line numbers stripped.
 func raceSig(blk string) string {
 	var fr []string
 	lines := strings.Split(blk, "\n")
 	for i, l := range lines {
 		if strings.HasPrefix(l, "Write at") || strings.HasPrefix(l, "Read at") || strings.HasPrefix(l, "Previous write at") || strings.HasPrefix(l, "Previous read at") {
 			for j := i + 1; j < len(lines) && strings.TrimSpace(lines[j]) != ""; j++ {
-				if strings.Contains(lines[j], "/repo/") && j > 0 {
+				if strings.Contains(lines[j], repoPrefix()) && j > 0 {
 					fn := strings.TrimSpace(lines[j-1])
-					if k := strings.IndexByte(fn, '('); k > 0 {
-						fn = fn[:k]
+					fn = strings.TrimSuffix(fn, "()")
+					if k := strings.LastIndexByte(fn, '/'); k >= 0 {
+						fn = fn[k+1:] // package-qualified function, without the module path
 					}
 					fr = append(fr, fn)
 					break
